@@ -223,6 +223,33 @@ impl Property for C03 {
                 Err(_) => ctx.exclude("repo-bc-file-not-loadable"),
             }
         }
+        // compiler outputs at the widths of the format (see gen/limits.rs): whatever the compiler
+        // and the serializer accept must come back unchanged; a refusal is not a round trip
+        let mut limit_programs = crate::gen::limits::programs();
+        limit_programs.extend(crate::gen::limits::huge_programs());
+        for (i, (name, src)) in limit_programs.into_iter().enumerate() {
+            if !ctx.shard_mine(i + 11) {
+                continue;
+            }
+            let p = match fmlrun::parse(&src).and_then(|ast| fmlrun::compile(&ast)) {
+                Ok(p) => p,
+                Err(_) => {
+                    ctx.label("limit-program:refused-by-parser-or-compiler");
+                    continue;
+                }
+            };
+            if fmlrun::serialize(&p).is_err() {
+                ctx.label("limit-program:refused-by-serializer");
+                continue;
+            }
+            ctx.eval();
+            ctx.label("limit-program:round-trip");
+            let case = || json!({"limit_program": name, "source": src});
+            if let Err(mut v) = round_trip(&p, true, 3_000_000, &case, ctx, "limit") {
+                v.detail = format!("[limit program {}] {}", name, v.detail);
+                out.push(v);
+            }
+        }
         out
     }
     fn judge_tape(&self, tape: &[u8], ctx: &mut Ctx) -> Judged {
@@ -258,6 +285,18 @@ impl Property for C03 {
             if let Some(bytes) = crate::tape::unhex(t) {
                 return self.judge_tape(&bytes, ctx);
             }
+        }
+        if let Some(src) = case["source"].as_str() {
+            let c = case.clone();
+            let p = match fmlrun::parse(src).and_then(|ast| fmlrun::compile(&ast)) {
+                Ok(p) => p,
+                Err(_) => return Ok(()),
+            };
+            if fmlrun::serialize(&p).is_err() {
+                return Ok(());
+            }
+            ctx.eval();
+            return round_trip(&p, true, 3_000_000, &move || c.clone(), ctx, "limit");
         }
         Err(Violation::new("harness-error", "unusable replay case", case.clone()))
     }
